@@ -19,7 +19,9 @@ RULE = ('forward values of every nn op over the C02 generators (activations, sof
         'and output shape must equal the model; the failing-input search compares with torch.nn.functional. '
         'SPECIAL VALUES: -inf / +inf / NaN / dtype extremes / signed zeros / subnormals written over border bands (the cells the padded '
         'windows overlap), whole channels or the whole input of every pooling op (max, avg; 1-d, 2-d), unfold and the conv inputs, '
-        'float64 and float32, with padding > 0 most of the time. RE-CONFIGURED OBJECTS: one layer / loss / activation object per '
+        'float64 and float32, with padding > 0 most of the time; the same values written over SOME entries (cells, a row, everything) of the operand of '
+        'every activation (relu, leaky_relu, selu, tanh, sigmoid), softmax / log_softmax along any dim and the losses (mse, nll, cross-entropy, '
+        'bce-with-logits). RE-CONFIGURED OBJECTS: one layer / loss / activation object per '
         'program whose public attributes (reduction; kernel_size, stride, padding, dilation, pad_value, output_size; negative_slope; '
         'dim; start_dim, end_dim) are assigned after construction and which is called again after every assignment: each call must '
         'equal the op with the attribute values of that moment. '
@@ -33,7 +35,9 @@ EXHAUSTIVE = {'quick': False, 'thorough': False}
 ASSUMPTIONS = ['float64 values (rel 1e-9; float32 leaves rel 1e-6); torch is used only as the oracle of the failing-input search',
                'max pooling over a window that holds a NaN: the model selects by `<` and does not propagate NaN, NumPy / PyTorch do; for these '
                'cases (only) the implementation is compared with a direct NumPy reading of the definition (window maximum, NaN if any '
-               'real cell is NaN, padding never taking part) instead of the model value']
+               'real cell is NaN, padding never taking part) instead of the model value',
+               'activations over NaN entries or float32 extremes: the model selects by `<` (relu / selu of NaN) and computes in binary64 (no float32 '
+               'overflow); for these cases (only) the implementation is compared with a NumPy reading of the definition in the operand dtype']
 TRUSTED_BASE = ['harness/tprog.py, harness/gen_ops.py']
 
 
@@ -154,6 +158,65 @@ def special_case(rng, op):
         lv.append((lf[0], [float(np.float32(q)) for q in lf[1]] if dt == 'f32' else list(lf[1]), False, dt))
     c = {'kind': 'op', 'op': op, 'leaves': lv, 'args': args, 'malformed': False, 'dt': dt, 'special': marks}
     c['nanmax'] = op.startswith('max') and bool(np.isnan(x).any())
+    c['lines'] = gen_ops.program(c, rng) + [f't val {len(lv)}']
+    return c
+
+
+# (binary_cross_entropy is not among them: its operand is a probability, and at exactly 0 / 1 the documented epsilon guard applies)
+POINT_OPS = ['relu', 'relu', 'leaky_relu', 'selu', 'tanh', 'sigmoid', 'softmax', 'log_softmax', 'mse_loss', 'nll_loss', 'cross_entropy',
+             'binary_cross_entropy_with_logits']
+POINT_ACTS = ('relu', 'leaky_relu', 'selu', 'tanh', 'sigmoid')
+
+
+def point_ref(c):
+    """an activation read off its definition with NumPy in the dtype of the operand (NaN stays NaN, float32 overflows as float32 does)"""
+    lf = c['leaves'][0]
+    x = np.array(lf[1], dtype=np.float64).reshape(lf[0]).astype(np.float32 if c['dt'] == 'f32' else np.float64)
+    op = c['op']
+    with np.errstate(all='ignore'):
+        if op == 'relu': return np.where(np.isnan(x), x, np.where(x > 0, x, x.dtype.type(0)))
+        if op == 'leaky_relu': return np.where(x > 0, x, x.dtype.type(common.bitsf(str(c['args'][0]))) * x)
+        if op == 'selu':
+            alpha, scale = 1.6732632423543772848170429916717, 1.0507009873554804934193349852946
+            return (scale * np.where(np.isnan(x), x, np.where(x > 0, x, alpha * np.expm1(np.minimum(x, 0))))).astype(x.dtype)
+        if op == 'tanh': return np.tanh(x)
+        if op == 'sigmoid': return np.where(x >= 0, 1 / (1 + np.exp(-np.abs(x))), 1 - 1 / (1 + np.exp(-np.abs(x)))).astype(x.dtype)
+    raise KeyError(op)
+
+
+def special_point_case(rng, op):
+    """a pointwise / row-wise nn op (activation, softmax family, loss) whose first operand holds special values in SOME entries:
+    -inf (masked scores, log 0), +inf, NaN, signed zeros / smallest magnitudes, the dtype's extremes; float64 and float32"""
+    while True:
+        leaves, args = gen_ops.gen_nn(rng, op, False)
+        sh = leaves[0][0]
+        if len(sh) >= 1 and 1 <= int(np.prod(sh)) <= 400: break
+    dt = rng.pick(['f64', 'f32'])
+    x = np.array(leaves[0][1], dtype=np.float64).reshape(sh)
+    if dt == 'f32': x = x.astype(np.float32).astype(np.float64)
+    fi = np.finfo(np.float32 if dt == 'f32' else np.float64)
+    classes = [[float('-inf')]] * 4 + [[float('inf')]] * 2 + [[float('nan')]] * 2 + [[-0.0, 0.0, float(fi.tiny), -float(fi.tiny), 5e-324 if dt == 'f64' else float(fi.tiny)]] * 2
+    # the dtype's extremes only where the op maps each element by itself: a sum / a shift by the maximum of them absorbs every other term
+    if op in POINT_ACTS: classes += [[float(fi.min), float(fi.max)]]
+    marks = []
+    flat = x.reshape(-1)
+    for _ in range(rng.randint(1, 2)):
+        v = rng.pick(rng.pick(classes))
+        how = rng.random()
+        if how < .15: flat[:] = v; where = 'all'
+        elif how < .35 and x.ndim >= 2:
+            x[rng.randrange(sh[0])] = v; where = 'row'
+        else:
+            for i in rng.sample(range(flat.size), rng.randint(1, max(1, flat.size // 2))): flat[i] = v
+            where = 'cells'
+        marks.append((repr(v), where))
+    lv = [(sh, [float(q) for q in x.ravel()], False, dt)]
+    for lf in leaves[1:]:       # targets / labels: as generated
+        lv.append(tuple([lf[0], [float(np.float32(q)) for q in lf[1]] if dt == 'f32' and (len(lf) < 4 or lf[3] != 'i64') else list(lf[1]), False] + list(lf[3:] if len(lf) > 3 else [dt])))
+    c = {'kind': 'op', 'op': op, 'leaves': lv, 'args': args, 'malformed': False, 'dt': dt, 'special': marks, 'point': True}
+    # NaN entries (the model's relu / selu select by `<` and do not propagate NaN) and float32 extremes (the binary64 model does not
+    # overflow where float32 does): the value is judged against the definition instead of the model, as for max pooling over NaN
+    c['pointref'] = op in POINT_ACTS and bool(np.isnan(x).any() or (dt == 'f32' and (np.abs(x[np.isfinite(x)]) >= float(fi.max) / 4).any()))
     c['lines'] = gen_ops.program(c, rng) + [f't val {len(lv)}']
     return c
 
@@ -384,6 +447,9 @@ def cases(rng, tier):
     for op in ('max_pool1d', 'max_pool2d', 'avg_pool1d', 'avg_pool2d', 'conv1d', 'conv2d', 'unfold'):
         for _ in range((20 if op.startswith('max') else 8) if tier == 'quick' else 400):
             out.append(special_case(rng, op))
+    for op in POINT_OPS:
+        for _ in range(8 if tier == 'quick' else 300):
+            out.append(special_point_case(rng, op))
     for op in RECONF_OPS:
         for _ in range((12 if op == 'loss' else 8) if tier == 'quick' else 200):
             out.append(reconf_case(rng, op))
@@ -697,6 +763,12 @@ def compare(c, mo, io):
     if c['kind'] == 'mfrep':
         return [(c['lines'][k], m[:300], str(i)[:300]) for k, (m, i) in enumerate(zip(mo, io))
                 if not (m == i or (tprog.close_tokens(m, i, rtol) if ' ' in m or ' ' in str(i) else tprog.close_line(m, str(i), rtol)))][:3]
+    if c.get('pointref'):
+        nl = len(c['leaves'])
+        d = tprog.diff_program(c['lines'][:nl + 1], mo[:nl + 1], io[:nl + 1], rtol)
+        if d or io[nl] == 'rejected': return d
+        ref = tprog.show_arr(point_ref(c).astype(np.float64))
+        return [] if tprog.close_arr(ref, io[nl + 1], rtol) else [(c['lines'][nl + 1], 'definition: ' + ref[:280], str(io[nl + 1])[:300])]
     if c.get('nanmax'):
         # the value line is judged against the definition (see ASSUMPTIONS); everything else against the model
         nl = len(c['leaves'])
@@ -720,6 +792,8 @@ def distribution(cases):
             inc(f"special value {v} over {where} ({c['dt']})")
             inc(f"special values in {c['op']}")
         if c.get('nanmax'): inc('max pooling with NaN cells (judged against the definition)')
+        if c.get('point'): inc(f"special values in some entries of a pointwise / row-wise op ({c['dt']})")
+        if c.get('pointref'): inc('activation over NaN / float32 extremes (judged against the definition)')
         if c['kind'] == 'reconf':
             inc('re-configured object: calls after an attribute assignment', len(c['cfgs']) - 1)
         if c['kind'] in ('repeat', 'mfrep'):
